@@ -1,13 +1,17 @@
 #!/bin/bash
 # usage: ./seedtest.sh <seed-id> <property> [<property>...]
 # applies seeded/<seed-id>/patch.diff to /repo, runs the quick checks, and undoes the patch.
+# The evidence files of the clean tree are put back afterwards (evidence must describe /repo itself).
 cd "$(dirname "$0")"
 id=$1; shift
 git -C /repo apply /verif/seeded/$id/patch.diff || { echo "patch does not apply"; exit 2; }
+mkdir -p .build/evidence_backup
+for p in "$@"; do cp -f evidence/$p.json .build/evidence_backup/ 2>/dev/null; done
 for p in "$@"; do
   echo "== seed $id vs check $p"
   ./check $p --tier quick 2>&1 | grep -E "VIOLATION|KNOWN|ERROR|obligations" | cut -c1-300
   cp replays/$p-*-0.json seeded/$id/caught_by_$p.json 2>/dev/null
 done
 git -C /repo checkout -- .
+for p in "$@"; do cp -f .build/evidence_backup/$p.json evidence/ 2>/dev/null; rm -f replays/$p-*.json; done
 python3 gen/gen.py > /dev/null
